@@ -34,6 +34,7 @@ type Obligation struct {
 	ReplayGoal  *Term
 	Replay      *replayInfo
 	ExtraAsserts []string
+	Stale        string // the loop contract this obligation comes from is out of date (header changed): a failure is undecided
 
 	// results
 	Result  string // unsat (discharged) | sat | unknown | timeout
